@@ -1,5 +1,6 @@
 import Ptn.C17.Model
 import Ptn.C05.DiscModel
+import Ptn.C09.EnvModel
 /-! Line-protocol handler for the C17 model (core Lean only).
 
 Request (one line):
@@ -17,7 +18,10 @@ Request (one line):
   segments `u>h …` followed by `last L`) · `nbrs x` (`neighbouring_nodes()`) ·
   `events first|second|twosite` (struct only: the full event sequence of one time step of the
   TDVP variant, `Ptn.C05.DiscModel`: `site v` · `move a>b` · `link a>b` · `two a>b` · `hop a>b` ·
-  `init c`, space separated; `err` where the code raises, i.e. one node for second / twosite)
+  `init c`, space separated; `err` where the code raises, i.e. one node for second / twosite) ·
+  `bugenv` (struct only: the trace of one BUG step, `Ptn.C09.EnvModel`: events separated by ` ; `,
+  `init r a>b …` · `descend p>c z>p:gen …` · `evolve c x>c:gen …` · `build c>p k>c:gen …` with
+  `gen` ∈ `old`/`new`/`missing`)
 * answer: the answers of the queries joined by ` | `; each is `ok` followed by identifiers
   (`k:v` for dict entries, `a>b` for pairs) or `err` where the Python raises.
 -/
@@ -117,6 +121,8 @@ def answerStruct (t : RTree) (q : List String) : Option String :=
   | ["cachekeys", c] => do
     let c ← c.toNat?
     some (orErr ((t.cacheKeys c).map showPairs))
+  | ["bugenv"] =>
+    some ("ok " ++ " ; ".intercalate ((Ptn.C09.Env.bugRun t).map Ptn.C09.Env.showBEv))
   | ["events", which] =>
     let evs? : Option (Option (List Ptn.C05.Disc.DEv)) :=
       if which == "first" then some (Ptn.C05.Disc.eventsFirst t)
